@@ -19,6 +19,12 @@ func (c ppCodec) NewXProtocol(ctx context.Context) api.XProtocol {
 	return ppProto{c.XCodec.NewXProtocol(ctx)}
 }
 
+// ProtocolMatch: never chosen by automatic protocol detection (its wire format
+// is bolt's; an Auto listener must keep detecting bolt).
+func (ppCodec) ProtocolMatch() api.ProtocolMatch {
+	return func(data []byte) api.MatchResult { return api.MatchFailed }
+}
+
 type ppProto struct{ api.XProtocol }
 
 func (ppProto) Name() api.ProtocolName { return ppName }
